@@ -141,10 +141,37 @@ class Collector:
     def case(self, key):
         self._dig.update(json.dumps(key, sort_keys=True, default=str).encode())
 
+    _known_entries = None
+
+    @classmethod
+    def _is_known(cls, key):
+        """True when the key matches a 'known' entry of KNOWN_FINDINGS.json (any property).  Only used to cap
+        the two groups separately, so that many instances of a known finding can never crowd a new violation
+        out of the listed ones; the verdict itself is taken by the runner."""
+        if cls._known_entries is None:
+            try:
+                import os
+
+                path = os.path.join(os.path.dirname(os.path.dirname(os.path.abspath(__file__))), "KNOWN_FINDINGS.json")
+                with open(path) as fp:
+                    cls._known_entries = [e for e in json.load(fp).get("findings", []) if e.get("status") == "known"]
+            except Exception:
+                cls._known_entries = []
+        if not cls._known_entries:
+            return False
+        from mc.runner import _match
+
+        try:
+            return any(_match(e, key) for e in cls._known_entries)
+        except Exception:
+            return False
+
     def violation(self, key, what, **detail):
         self.violations_total += 1
-        if len(self.violations) < self.MAX_LISTED:
-            self.violations.append({"key": key, "what": what, "detail": detail})
+        known = self._is_known(key) if isinstance(key, dict) else False
+        n_same = sum(1 for v in self.violations if v.get("_known", False) == known)
+        if n_same < self.MAX_LISTED:
+            self.violations.append({"key": key, "what": what, "detail": detail, "_known": known})
 
     def sample(self, s):
         if len(self.samples) < 3:
